@@ -20,7 +20,7 @@ from vlib.tr_filter import tr_filter
 from vlib.tr_wrapper import tr_wrapper
 from vlib.tr_output import tr_output
 from vlib.syslevel import build_prod, per_call, call_line, run_many
-from vlib.filt import AREA, UIDS, build_impl, alphabet, chains_upto, random_chain, measure_singles, parse_elems, table_of, run_script_as, stage_tools
+from vlib.filt import AREA, UIDS, build_impl, alphabet, chains_upto, random_chain, measure_singles, parse_elems, table_of, run_script_as, stage_tools, shrink_list, FAST_ASAN
 
 SINKS = ["sink\tfile\tout\t@D@/out.log", "sink\tpipe\tso\t1", "sink\tpipe\tse\t2", "sink\tdgram\tsock\t@D@/s.sock",
          "sink\tdevlog\tdevlog\t@D@/devlog.sock", "sink\ttty\ttty"]
@@ -35,15 +35,16 @@ def my_comm():
         return b"python3"
 
 
-def corpus_cases():
+def corpus_pairs():
+    """corpus lines 'chain <ruid> <euid> <tty> <chain hex> [...]': the verdict table is re-measured on the current tree"""
     d = os.path.join(VERIF, "corpus", "C07")
     out = []
     if os.path.isdir(d):
         for f in sorted(os.listdir(d)):
             for line in open(os.path.join(d, f)):
-                line = line.rstrip("\n")
-                if line and not line.startswith("#"):
-                    out.append(line)
+                g = line.rstrip("\n").split("\t")
+                if g[0] == "chain" and len(g) >= 5:
+                    out.append(((int(g[1]), int(g[2]), int(g[3])), unhex(g[4]) or b""))
     return out
 
 
@@ -95,9 +96,43 @@ def describe(c):
     return c[:200]
 
 
-def classify(run, res, cases, stream, in_domain=True):
+def fails(run, exe, st, chain):
+    lines, _, _ = chain_cases(run, exe, [(st, chain)], "shrink")
+    r = corr_stream(run, AREA, exe, lines, spec_line=spec_line, stream="shrink", impl_env=FAST_ASAN)
+    return bool(r["spec_bad"] or r["faults"]), lines[0]
+
+
+def minimise(run, exe, case):
+    """fewest elements (then shortest arguments) on which the implementation still breaks the specification"""
+    f = case.split("\t")
+    if f[0] != "chain" or exe is None:
+        return case
+    st = (int(f[1]), int(f[2]), int(f[3]))
+    best = [case]
+
+    def test(elems):
+        bad, line = fails(run, exe, st, b";".join(elems))
+        if bad:
+            best[0] = line
+        return bad
+    elems = shrink_list([e for e in (unhex(f[4]) or b"").split(b";")], test, budget=40)
+    for i, e in enumerate(elems):
+        if b":" in e and len(e) > 24:
+            n, a = e.split(b":", 1)
+            for cut in (a[:1], a[: len(a) // 8], a[: len(a) // 2]):
+                cand = elems[:i] + [n + b":" + cut] + elems[i + 1:]
+                if test(cand):
+                    elems = cand
+                    break
+    return best[0]
+
+
+def classify(run, res, cases, stream, in_domain=True, exe=None):
     nv = 0
-    for (i, c, impl, sp) in res["spec_bad"]:
+    shrunk = set()
+    for k, (i, c, impl, sp) in enumerate(res["spec_bad"]):
+        if k == 0 and exe is not None:
+            c = minimise(run, exe, c)
         run.violation("spec:conjunction", "spec_violation",
                       "decision %s is not the conjunction of the known elements' own verdicts: %s (measured verdicts: %s)" % (impl.split("\t")[1], describe(c), c.split("\t")[5]),
                       {"stream": stream, "failing_input": c, "impl_output": impl, "model_output": res["model"][i], "cases": [c]})
@@ -105,6 +140,9 @@ def classify(run, res, cases, stream, in_domain=True):
     for (i, c, impl) in res["faults"]:
         if not in_domain and res["model"][i].startswith("fault:"):
             continue          # outside the property's domain, and the model predicts the undefined behaviour
+        if in_domain and "fault" not in shrunk and exe is not None:
+            shrunk.add("fault")
+            c = minimise(run, exe, c)
         run.violation("fault:%s" % impl.split("\t")[0], "sanitizer", "implementation faulted (%s) on %s" % (impl, describe(c)),
                       {"stream": stream, "failing_input": c, "impl_output": impl, "model_output": res["model"][i], "cases": [c]})
         nv += 1
@@ -235,15 +273,24 @@ def check(run):
     limit = min(fc["ini_max_line"], 4096)
     states = states_for(run.tier)
     # ---- stream 1: corpus + exhaustive small chains in every state
-    corp = corpus_cases()
+    corp = corpus_pairs()
     small = chains_upto(alpha, 2 if run.tier == "quick" else 3)
-    pairs = [(st, c) for st in states for c in small]
+    gen = [(st, c) for st in states for c in small]
     nrand = 3000 if run.tier == "quick" else 25000
-    pairs += [(rng.choice(states), random_chain(rng, alpha, limit)) for _ in range(nrand)]
-    lines, singles, el = chain_cases(run, exe, pairs, "fn")
-    allcases = corp + lines
-    res = corr_stream(run, AREA, exe, allcases, spec_line=spec_line, stream="chain")
-    nv, mism = classify(run, res, allcases, "chain")
+    gen += [(rng.choice(states), random_chain(rng, alpha, limit)) for _ in range(nrand)]
+    # a smoke stage first: when the implementation faults on a large share of it the full stream is pointless (and slow)
+    pairs = corp + gen[:: max(1, len(gen) // 300)]
+    lines, singles, el = chain_cases(run, exe, pairs, "smoke")
+    res = corr_stream(run, AREA, exe, lines, spec_line=spec_line, stream="smoke", impl_env=FAST_ASAN)
+    crashed = len(res["faults"]) > 20 or sum(1 for v in singles.values() if v not in ("u", "p", "d")) > 20
+    if crashed:
+        run.notes.append("the implementation faulted on %d of %d smoke cases; the full stream and the end-to-end part were skipped" % (len(res["faults"]), len(lines)))
+    else:
+        pairs = corp + gen
+        lines, singles, el = chain_cases(run, exe, pairs, "fn")
+        res = corr_stream(run, AREA, exe, lines, spec_line=spec_line, stream="chain", impl_env=FAST_ASAN)
+    allcases = lines
+    nv, mism = classify(run, res, allcases, "chain", exe=exe)
     # registry: the model's binding of a name (from the preprocessed arrays) and the implementation's doesNameExist agree
     reg_bad = []
     for (st, c) in pairs:
@@ -253,10 +300,10 @@ def check(run):
                 reg_bad.append((n, a, t, v, st))
     # ---- stream 2: beyond the configuration-line length (truncation, name buffer): correspondence only
     bc = beyond_cases(fc)
-    res2 = corr_stream(run, AREA, exe, bc, stream="beyond")
+    res2 = corr_stream(run, AREA, exe, bc, stream="beyond", impl_env=FAST_ASAN)
     nv2, mism2 = classify(run, res2, bc, "beyond", in_domain=False)
     # ---- end to end
-    ee = e2e(run, exe, fc, alpha, run.tier, rng)
+    ee = e2e(run, exe, fc, alpha, run.tier, rng) if not crashed else {"calls": 0, "processes": 0, "skipped": True}
     nv_total = len(run.violations)
     if not ok and nv_total == 0:
         run.violation("proof:%s" % failed, "proof", "proof obligation no longer checks: %s\n%s" % (failed, log[-1500:]), {"theorem": failed, "coq_log": log[-3000:]})
@@ -335,7 +382,7 @@ def replay(run, path):
         pairs = [((int(f[1]), int(f[2]), int(f[3])), unhex(f[4]) or b"") for f in (c.split("\t") for c in rest) if f[0] == "chain"]
         lines, _, _ = chain_cases(run, exe, pairs, "replay") if pairs else ([], None, None)
         lines += [c for c in rest if not c.startswith("chain\t")]
-        res = corr_stream(run, AREA, exe, lines, spec_line=spec_line, stream="replay")
+        res = corr_stream(run, AREA, exe, lines, spec_line=spec_line, stream="replay", impl_env=FAST_ASAN)
         for i, c in enumerate(lines):
             print("case:", describe(c))
             print(" model:", res["model"][i][:200], " impl:", res["impl"][i][:200])
